@@ -134,6 +134,16 @@ int v_sprintf_prec_d(char *buf, int prec, int val)
 /* ---- opening: the contract of file.c:fileMustOpen (enforced in file_h.c) -- */
 FILE *fileMustOpen(FileName fn, IOMode mode) { return v_open(); }
 
+
+/* ---- closing: the contract of file.c:fileClose (enforced on the real text in file_h.c, job file.fileClose.*):
+ *      close once; a pending stream error or a failing close goes to the error handler (reported, no return) */
+void fileClose(FILE *f, FileName fn)
+{
+	int bad = ferror(f) != 0;
+	if (fclose(f) != 0) bad = 1;
+	if (bad) { g_reported = 1; __CPROVER_assume(0); }
+}
+
 /* ---- text producers: one may-fail write on the given stream, nothing else - */
 int inclWrite(FILE *f, SrcLineList sll)                         { v_write(f); return nondet_v_int(); }
 int abWrSExpr(FILE *f, AbSyn ab, ULong mode)                    { v_write(f); return nondet_v_int(); }
